@@ -438,6 +438,23 @@ def mysql_ssl41(caps, mx, cs):
     return hx(mysql.MySQLHandshakeSslRequest(set(cl), int(mx), csm[0]).compose())
 
 
+def mysql_hs(ver, cid, a1, caps, cs, st, a2, pl):
+    from cryptoparser.tls import mysql
+    cl = [c for c in mysql.MySQLCapability if int(caps) & int(c)]
+    sl = [c for c in mysql.MySQLStatusFlag if int(st) & int(c)]
+    csm = [m for m in mysql.MySQLCharacterSet if m.value.code == int(cs)]
+    if sum(int(c) for c in cl) != int(caps) or sum(int(c) for c in sl) != int(st) or not csm:
+        raise TypeError('not constructible')
+    msg = mysql.MySQLHandshakeV10(
+        mysql.MySQLVersion.MYSQL_10, bytes.fromhex('' if ver == '-' else ver).decode('ascii'), int(cid), bytes.fromhex(a1), set(cl), csm[0], set(sl),
+        None if a2 == '-' else bytes.fromhex(a2), None if pl == '_' else bytes.fromhex(pl).decode('ascii'))
+    composed = bytes(msg.compose())
+    back = mysql.MySQLHandshakeV10.parse_exact_size(composed)
+    if set(back.capabilities) != set(cl) or set(back.states) != set(sl) or back.connection_id != int(cid):
+        raise TypeError('parse(compose(x)) differs from x')
+    return hx(composed)
+
+
 def mysql_ssl320(caps, mx):
     from cryptoparser.tls import mysql
     cl = [c for c in mysql.MySQLCapability if int(caps) & int(c)]
@@ -1008,7 +1025,7 @@ COMMANDS = {
     'bannerenc': banner_enc, 'bannerdec': banner_dec,
     'nvl': nvl_cmd, 'fvm': fvm_cmd, 'hline': hline_cmd,
     'tpktenc': tpkt_enc, 'cotpenc': cotp_enc, 'pcotp': p_cotp, 'rdpnegenc': rdp_neg_enc, 'mysqlpktenc': mysql_pkt_enc,
-    'mysqlssl41': mysql_ssl41, 'mysqlssl320': mysql_ssl320, 'ovpnctl': ovpn_ctl, 'ovpntcp': ovpn_tcp, 'pgssl': pg_ssl,
+    'mysqlssl41': mysql_ssl41, 'mysqlhs': mysql_hs, 'mysqlssl320': mysql_ssl320, 'ovpnctl': ovpn_ctl, 'ovpntcp': ovpn_tcp, 'pgssl': pg_ssl,
     'sshpad': ssh_pad, 'mpintspec': mpint_spec, 'kexenc': kex_enc, 'kexdec': kex_dec,
     'rsablob': blob_cmd(rsa_blob), 'dssblob': blob_cmd(dss_blob), 'edblob': blob_cmd(ed_blob),
     'keytag': keytag_cmd, 'dsenc': ds_enc, 'mxenc': mx_enc, 'nameenc': name_enc, 'txtenc': txt_enc, 'rrsigenc': rrsig_enc,
